@@ -4,7 +4,8 @@ lemma; the source scan finds no static / thread_local / interior-mutable item
 in the runtime, the templates or the macro).  oracle: 16 threads parse
 permuted multisets of inputs three times each on memoized / left-recursive /
 hook-using grammars; every thread must get, for every input, the result of
-the sequential run."""
+the sequential run; look-alike inputs (same low bits of the code points) parsed
+before and after each other in one process give what a fresh process gives."""
 import collections
 
 from .. import stream, genrun
@@ -49,7 +50,52 @@ def check(out, ctx):
                 nontrivial.add((gid, rule, c.inp))
         if len(samples) < 3:
             samples.append({"grammar": cs[0].g.text.split("\n")[0][:140], "rule": rule, "inputs": [c.inp for c in cs[:4]], "threads": threads})
+    # history independence on look-alike inputs: for every kind of grammar (not only the memoized ones), an input x
+    # and variants of x whose characters are other characters with the same low bits (c + 0x100, c + 0x400,
+    # c + 0x10000: what a table indexed by a truncated code point, a hash of the first byte ... would confuse),
+    # parsed in ONE process in the orders [x, x', x] and [x', x, x'], must each give what a process that parsed
+    # nothing else gives
+    def aliases(x):
+        vs = []
+        for off in (0x100, 0x400, 0x10000):
+            y = "".join(chr(ord(ch) + off) if 0x21 <= ord(ch) < 0x7f else ch for ch in x)
+            if y != x:
+                vs.append(y)
+        if vs and len(x) > 1:
+            k = next(i for i, ch in enumerate(x) if 0x21 <= ord(ch) < 0x7f)
+            vs.append(x[:k] + chr(ord(x[k]) + 0x100) + x[k + 1:])
+        return vs
+    allg = collections.defaultdict(list)
+    for c in st["cases"]:
+        if c.g.gid not in hang and c.impl["k"] in ("OK", "ERR") and 0 < len(c.inp) <= 40:
+            allg[(c.g.gid, c.rule)].append(c)
+    akeys = sorted(allg)[:: max(1, len(allg) // (60 if ctx.tier == "quick" else 600))]
+    alias_runs = 0
+    alias_pairs = 0
+    for (gid, rule) in akeys:
+        exe = st["exes"][gid]
+        cs = sorted(allg[(gid, rule)], key=lambda c: (c.impl["k"] != "OK", len(c.inp)))[:2]
+        for c in cs:
+            for y in aliases(c.inp)[: (2 if ctx.tier == "quick" else 4)]:
+                line = lambda t: "parse\t%s\t%s\t%s\trec" % (gid, rule.encode().hex(), t.encode().hex())
+                fresh = {t: genrun.pipe_resilient(exe, [line(t)])[0] for t in (c.inp, y)}
+                if any(r in ("CRASH", "TIMEOUT", "SKIPPED") for r in fresh.values()):
+                    continue
+                alias_pairs += 1
+                for order in ([c.inp, y, c.inp], [y, c.inp, y]):
+                    res = genrun.pipe_resilient(exe, [line(t) for t in order])
+                    alias_runs += len(order)
+                    evaluations += len(order)
+                    for k, (t, r) in enumerate(zip(order, res)):
+                        if not stream.same_result(stream.parse_impl(r), stream.parse_impl(fresh[t])):
+                            out.violation("c20hist:%s:%s:%s:%d" % (gid, rule, t.encode().hex()[:48], k),
+                                          "the result of parsing %r depends on the parses made before it in the process (%r parsed first)" % (t, order[:k]),
+                                          {"grammar": c.g.text, "rule": rule, "input": t, "parsed_before_in_this_process": order[:k],
+                                           "result_in_a_fresh_process": fresh[t][:400], "result_after_those": r[:400],
+                                           "reproduce": "printf '%s\\n' | %s" % ("\\n".join(line(u).replace("\t", "\\t") for u in order[:k + 1]), exe)})
+                            break
     out.coverage.update({
+        "look_alike_input_pairs": alias_pairs, "parses_in_look_alike_histories": alias_runs,
         "evaluations": evaluations, "distinct_nontrivial": len(nontrivial),
         "rule": "grammars of the stream with memoized / left-recursive rules or hooks; 16 threads x 3 repetitions x permuted inputs per (grammar, rule); evaluations = parses run concurrently; non-trivial = the sequential parse of that input hit the cache or ran the left-recursion loop; distinct by (grammar, rule, input)",
         "samples": samples, "groups": len(keys),
